@@ -170,7 +170,7 @@ Lemma piece_av tg sub t : piece_of tg AssumeValid sub t = piece_of tg Substitute
 Proof. destruct t as [u v|b]; cbn [piece_of]; [|reflexivity]. destruct (render tg u v); [reflexivity|]. destruct tg; reflexivity. Qed.
 
 Lemma repair_av tg sub ts : repair tg AssumeValid sub ts = repair tg SubstituteInvalid sub ts.
-Proof. unfold repair. f_equal. apply map_ext. intros t. apply piece_av. Qed.
+Proof. unfold repair. rewrite (map_ext _ _ (piece_av tg sub)). reflexivity. Qed.
 
 (* outside check_validity only a Latin-1 target without substitution can throw *)
 Lemma piece_no_throw tg m sub t : m <> CheckValidity ->
@@ -204,7 +204,7 @@ Proof.
       destruct tg; try (destruct NT as [l E]; [left; discriminate|]; rewrite E; cbn; eexists; reflexivity).
       destruct sub.
       * destruct NT as [l E]; [tauto|]. rewrite E. cbn. eexists; reflexivity.
-      * destruct (existsb _ ts) eqn:X.
+      * destruct (existsb (fun t => match t with Good _ v => negb (v <? 256) | Bad _ => false end) ts) eqn:X.
         -- cbn [refines]. destruct (assemble_ok_or_throw (map (piece_of TL1 SubstituteInvalid false) ts)) as [[l E]|E];
              unfold repair; rewrite E; cbn; [left; eexists; reflexivity|right; reflexivity].
         -- destruct NT as [l E]; [tauto|]. rewrite E. cbn. eexists; reflexivity.
